@@ -63,6 +63,114 @@ def make(facts):
     return bm, ip
 
 
+def cache_coherence(facts, res, entry_keys=None):
+    """Caches in front of guest memory, second rule (partial invalidation).  A function that stores a value derived from Bus::read into a
+    field of its receiver through a Cell / by assignment and reads it back later FILLS a cache.  Every constant address it (or anything it
+    calls) reads when filling is a SOURCE of the cache.  Necessary condition for coherence: a Bus::write to each source address that
+    changes the stored byte must change, on every successful path, some non-store field of the Bus that the filling code reads (a dirty
+    flag, a generation counter) - otherwise the cached decode survives the write.  Decided per source address by interpreting Bus::write.
+    Returns the findings as (key, message)."""
+    import cfg as cfgmod_
+    import json as json_
+    out = []
+    cg = cfgmod_.CallGraph(facts)
+    k_write = facts.body("bus::Bus::write")["key"]
+    busfields = facts.struct_fields("bus::Bus")
+    READ_SUFFIX = ("bus::Bus::read",)
+    fills = []
+    for k, b in facts.bodies.items():
+        if entry_keys is not None and not any(k == e_ or k in cg.reachable(e_) for e_ in entry_keys):
+            continue
+        txt = None
+        has_read = any(bl["term"]["k"] == "call" and any((bl["term"]["callee"]["path"] or "").endswith(r_) for r_ in READ_SUFFIX) for bl in b["blocks"])
+        sets_ = []
+        for bl in b["blocks"]:
+            t = bl["term"]
+            if t["k"] == "call" and "cell::Cell" in (t["callee"]["path"] or "") and (t["callee"]["path"] or "").split("::")[-1] in ("set", "replace") and len(t["args"]) >= 2:
+                a1 = t["args"][1]
+                if a1["k"] in ("copy", "move"):
+                    sets_.append(t)
+        if has_read and sets_:
+            # is a stored value derived from a bus read?  (closure over the body's locals)
+            tainted = set()
+            for bl in b["blocks"]:
+                t = bl["term"]
+                if t["k"] == "call" and any((t["callee"]["path"] or "").endswith(r_) for r_ in READ_SUFFIX):
+                    tainted.add(t["dest"]["l"])
+            changed = True
+            while changed:
+                changed = False
+                for bl in b["blocks"]:
+                    for s_ in bl["st"]:
+                        if s_["k"] == "assign":
+                            if txt is None:
+                                txt = True
+                            srcs = json_.dumps(s_["r"])
+                            if s_["p"]["l"] not in tainted and any('"l": %d,' % l_ in srcs or '"l": %d}' % l_ in srcs for l_ in tainted):
+                                tainted.add(s_["p"]["l"])
+                                changed = True
+                    t = bl["term"]
+                    if t["k"] == "call" and t["dest"]["l"] not in tainted and any(a_.get("k") in ("copy", "move") and a_["p"]["l"] in tainted for a_ in t["args"]):
+                        tainted.add(t["dest"]["l"])
+                        changed = True
+            if any(t["args"][1]["p"]["l"] in tainted for t in sets_):
+                fills.append(k)
+    res.inventory["caches_filled_from_guest_memory"] = [k.split("::")[-1] for k in fills]
+    if not fills:
+        return out
+    for k in fills:
+        scope = [k] + sorted(x for x in cg.reachable(k) if x in facts.bodies)
+        sources = set()
+        readfields = set()
+        for k2 in scope:
+            for bl in facts.bodies[k2]["blocks"]:
+                t = bl["term"]
+                if t["k"] == "call" and any((t["callee"]["path"] or "").endswith(r_) for r_ in READ_SUFFIX) and len(t["args"]) >= 2:
+                    a1 = t["args"][1]
+                    if a1["k"] == "const" and isinstance(a1.get("v"), dict) and "int" in a1["v"]:
+                        sources.add(int(a1["v"]["int"]))
+                txt2 = json_.dumps(bl)
+                for fn_ in busfields:
+                    if '"n": "%s"' % fn_ in txt2:
+                        readfields.add(fn_)
+        bm0 = BusModel(facts)
+        ctl = sorted(f_ for f_ in readfields if f_ not in bm0.stores)
+        for a in sorted(sources):
+            bm, ip = make(facts)
+            Mx = bv.M
+            val = bv.data_bv("val", 8)
+            mem = {}
+            busref = bm.fresh(mem)
+            c = facts.find("write_registers")
+            if len(c) == 1:
+                ip.primitives[c[0]] = lambda ip_, st, fr, t, args: UNIT
+            for nm in ("on_write_ddr", "on_write_dr"):
+                c = facts.find(nm)
+                if len(c) == 1:
+                    ip.primitives[c[0]] = lambda ip_, st, fr, t, args: Enum(models.OK, [UNIT])
+            before = {f_: mem[BUS_ROOT].fields[bm.fi[f_]] for f_ in ctl}
+            outs = ip.run_all(k_write, [busref, Int(bv.const(a, 32)), Int(val)], mem)
+            for o in outs:
+                st = o.state
+                if o.kind != "return" or not isinstance(o.value, Enum) or o.value.variant != models.OK:
+                    continue
+                if any(t_ in st.tags for t_ in ("opaque-switch", "opaque-assert", "unknown-callee")):
+                    res.errors.append("cache rule: Bus::write(0x%x) is not followed precisely: not decidable" % a)
+                    continue
+                stored = [w for n_ in bm.stores for w in bm.store_of(st, n_).writes]
+                if not stored:
+                    continue          # the value was equal to the stored one (or nothing is stored): nothing can go stale
+                changed_ctl = [f_ for f_ in ctl if repr(st.mem[BUS_ROOT].fields[bm.fi[f_]]) != repr(before[f_])]
+                res.ob(bool(changed_ctl))
+                if not changed_ctl:
+                    out.append(("cache|%s|not-invalidated-by|0x%x" % (k.split("::")[-1], a),
+                                "%s keeps values decoded from guest memory (sources: %s) and a write to H'%06X - one of the addresses it reads when filling - changes none of the "
+                                "fields it consults (%s): the cached decode survives the write and later results depend on history, not on the current register"
+                                % (k, ", ".join("H'%06X" % x for x in sorted(sources)), a, ", ".join(ctl) or "none")))
+                    break
+    return out
+
+
 def store_writers(facts, stores):
     """who-may-write: every body that stores into (or takes a mutable pointer to) a backing store"""
     out = {}
